@@ -41,6 +41,7 @@ type script struct {
 	flush    bool
 	hijack   bool
 	hijacked string
+	pre101   bool // call WriteHeader(101) before hijacking, as protocol switches may do
 }
 
 type outcome struct {
@@ -68,6 +69,10 @@ func (s *script) handler(o *outcome) http.Handler {
 			hj, ok := w.(http.Hijacker)
 			if !ok {
 				return
+			}
+			if s.pre101 {
+				w.Header().Set("Upgrade", "verif")
+				w.WriteHeader(http.StatusSwitchingProtocols)
 			}
 			conn, _, err := hj.Hijack()
 			if err != nil {
@@ -104,6 +109,7 @@ func genScript(t *rapid.T) *script {
 	if rapid.IntRange(0, 6).Draw(t, "hijack") == 0 {
 		s.hijack = true
 		s.hijacked = "HTTP/1.1 101 Switching\r\n\r\n" + rapid.StringMatching(`[a-z]{0,20}`).Draw(t, "raw")
+		s.pre101 = rapid.Bool().Draw(t, "pre101")
 		return s
 	}
 	if rapid.IntRange(0, 5).Draw(t, "info") == 0 {
@@ -127,7 +133,7 @@ func (s *script) String() string {
 	for _, w := range s.writes {
 		n += len(w)
 	}
-	return fmt.Sprintf("{info:%d status:%d headers:%v body:%dB/%dwrites flush:%v hijack:%v}", s.info, s.status, s.headers, n, len(s.writes), s.flush, s.hijack)
+	return fmt.Sprintf("{info:%d status:%d headers:%v body:%dB/%dwrites flush:%v hijack:%v pre101:%v}", s.info, s.status, s.headers, n, len(s.writes), s.flush, s.hijack, s.pre101)
 }
 
 var layerKinds = []string{"stream", "trace", "connlimit", "ratelimit", "cbreaker", "roundrobin", "roundrobin+sticky", "rebalancer", "buffer"}
